@@ -579,5 +579,13 @@ def feature_tour(crate):
                         group=dict(name="Raw In Group", opts=dict(ignore=True, attr=True)))],
           group=dict(name="Outer G")),
         dict(k="N", fname="outer_fn", items=[F("nested_in_fn")]),
+        # two generic functions of the same name nested in different fn bodies (module_path!() omits the enclosing fn):
+        # each keeps its own options
+        dict(k="N", fname="first_host", items=[F("same_inner", types=[0, 6], opts=dict(ignore=True, sample_count=3))]),
+        dict(k="N", fname="second_host", items=[F("same_inner", types=[1], consts=("L", "i", [1, 2]),
+                                                  opts=dict(ignore=False, explicit=True, sample_count=2), args=("arr_i", [8, 9]))]),
+        M("hosts", [dict(k="N", fname="h1", items=[F("twin", consts=("L", "u", [1]), opts=dict(ignore=False, explicit=True))]),
+                    dict(k="N", fname="h2", items=[F("twin", types=[2], opts=dict(ignore=True))])],
+          group=dict(name="Hosts", opts=dict(ignore=True, attr=True))),
     ]
     return Prog(crate, items)
